@@ -177,31 +177,44 @@ def run(ck, F):
     if ub is None:
         ck.undecided("R5", "utils", "-", "utils function not found")
         return
-    UB = M.Body(ub)
+    UB = I.inlined_body(F.lib, ub["path"], stop=lambda p: p.startswith(("reader::", "<reader::", "model::", "<model::", "error::")))
     rds = UB.calls_to("std::path::Path::read_dir", "std::fs::read_dir")
     ck.floor("R5", "directory scans", len(rds), 1)
+    through = M.IDENTITY_CALLS + ("ops::Try::branch", "Option::<T>::ok_or", "Option::<T>::filter", "Option::<T>::unwrap_or_else",
+                                  "Option::<T>::unwrap_or", "Option::<T>::unwrap", "Option::<T>::expect", "Path::new", "PathBuf::as_path")
     for bb, t in rds:
-        os_ = M.trace(UB, t["args"][0], M.IDENTITY_CALLS + ("ops::Try::branch", "Option::<T>::ok_or"))
+        os_ = M.trace(UB, t["args"][0], through)
         parents = [o for o in os_ if o.kind == "call" and (M.Body.callee_decl(o.term) or "").endswith("Path::parent")]
         others = [o for o in os_ if o not in parents]
         if not parents:
             ck.ok("R5", "scan-dir", sp(UB, bb), f"directory scanned does not come from Path::parent ({os_})", fn=ub["path"])
             continue
-        guarded = False
-        for pb in {o.bb for o in parents}:
-            for ebb, et in UB.calls_to("std::ffi::OsStr::is_empty", "std::path::Path::as_os_str"):
-                if not (M.Body.callee_decl(et) or "").endswith("is_empty"):
+        all_guarded = True
+        for o in parents:
+            guarded = fallback = False
+            for st in o.steps:
+                if st[0] != "call":
                     continue
-                src = M.trace(UB, et["args"][0], M.IDENTITY_CALLS + ("Path::as_os_str",))
-                if any(o.kind == "call" and o.bb == pb for o in src) and et.get("target") is not None:
-                    sw = UB.term(et["target"])
-                    if sw.get("k") == "switch":
-                        nonempty = [tgt for v, tgt in sw["targets"] if v == 0]
-                        # the parent payload may reach read_dir only through the non-empty arm
-                        if nonempty and bb not in UB.reachable_from(sw["otherwise"], avoid=nonempty) or (
-                                nonempty and others):
-                            guarded = True
-        if guarded and others:
+                if st[1].endswith("Option::<T>::filter"):
+                    cs = _closure_calls_lib(F, UB, UB.term(st[2])["args"][1])
+                    if cs is not None and any(c.endswith("OsStr::is_empty") for c, _ in cs):
+                        guarded = True
+                if st[1].endswith(("Option::<T>::unwrap_or_else", "Option::<T>::unwrap_or")):
+                    fallback = True
+            if not guarded:
+                pb = o.bb
+                for ebb, et in UB.calls_to("std::ffi::OsStr::is_empty"):
+                    src = M.trace(UB, et["args"][0], M.IDENTITY_CALLS + ("Path::as_os_str",))
+                    if any(x.kind == "call" and x.bb == pb for x in src) and et.get("target") is not None:
+                        sw = UB.term(et["target"])
+                        if sw.get("k") == "switch":
+                            nonempty = [tgt for v, tgt in sw["targets"] if v == 0]
+                            # the parent payload may reach read_dir only through the non-empty arm
+                            if nonempty and (bb not in UB.reachable_from(sw["otherwise"], avoid=nonempty) or others):
+                                guarded = True
+                fallback = fallback or bool(others)
+            all_guarded = all_guarded and guarded and fallback
+        if all_guarded:
             ck.ok("R5", "empty-parent-guard", sp(UB, bb), "parent() is used only when non-empty; otherwise a fixed directory", fn=ub["path"])
         else:
             ck.violation("R5", "empty-parent-guard", sp(UB, bb),
@@ -333,11 +346,15 @@ def _const_arg(B, t, text):
     return False
 
 
-def _closure_calls(F, B, operand):
+def _closure_calls_lib(F, B, operand):
+    return _closure_calls(F, B, operand, crate=F.lib)
+
+
+def _closure_calls(F, B, operand, crate=None):
     """[(callee decl, [string constants passed])] of a closure literal passed as operand."""
     for o in M.trace(B, operand, ()):
         if o.kind == "aggregate" and o.rv.get("closure"):
-            cb = F.bin.body(o.rv["closure"])
+            cb = (crate or F.bin).body(o.rv["closure"])
             if cb is None or not cb.get("mir"):
                 return None
             CB = M.Body(cb)
